@@ -103,6 +103,50 @@ def j5(prog, rep):
         rep.defer_broken("J5: fewer than 3 local character arrays handed to string functions found")
 
 
+
+def j4_wrap(prog, rep):
+    """An array index computed with an unsigned subtraction (`a[n - 1]`) wraps to a huge value when the subtrahend is
+    larger: the subtraction must be provably non-wrapping where it is used (relational domain, sa/poly.py).  Indices of
+    the form strlen(X) - 1 are J4-index's (they need a non-empty witness, not arithmetic)."""
+    from .. import poly
+    n = 0
+    for up in UNITS:
+        u = prog.unit(up)
+        for f in u.funcs:
+            if f.file != up:
+                continue
+            cand = []
+            for e in f.all_elems():
+                if e.cls != "ArraySubscriptExpr":
+                    continue
+                stack = [e.kid(1)]
+                while stack:
+                    x = stack.pop()
+                    if x is None:
+                        continue
+                    if x.cls == "BinaryOperator" and x.op == "-" and (u.types.get(x.ty) or {}).get("signed") is False:
+                        m = x.kid(0).strip() if x.kid(0) is not None else None
+                        if not (m is not None and m.cls == "CallExpr" and m.callee == "strlen"):
+                            cand.append((e, x))
+                    stack.extend(x.kids)
+            if not cand:
+                continue
+            # slice: only the variables the candidate indices are made of are tracked
+            roots = set()
+            for e, sub in cand:
+                for t in subterms(norm(sub)):
+                    if isinstance(t, tuple) and t and t[0] == "v":
+                        roots.add(t[1])
+            A = poly.Analysis(f, quiet={None}, track=lambda v: any(isinstance(t, tuple) and t and t[0] == "v" and t[1] in roots for t in subterms(v))).run()
+            for e, sub in cand:
+                n += 1
+                st = A.state_before(e)
+                rep.check(A.lin(sub, st) is not None, "J4-wrap", "%s in %s" % (e.text[:40], f.name), e.where,
+                          "the index contains the unsigned subtraction %s, and nothing on the paths to it establishes that it cannot wrap: with the subtrahend "
+                          "larger the index is close to SIZE_MAX and the access lands far outside the object" % sub.text[:40], function=f.name, construct="index-wrap")
+    return n
+
+
 def j1(prog, rep):
     C = cursor.CursorAnalysis(prog, "util/json.c")
     if len(C.funcs) < 9:
@@ -481,6 +525,8 @@ def run(tier):
         j3(prog, rep)
         j4(prog, rep)
         j5(prog, rep)
+        if j4_wrap(prog, rep) < 1:
+            rep.defer_broken("J4-wrap: no index with an unsigned subtraction found")
     n = len(configs)
     rep.require_min("J1-cursor", 80 * n)
     rep.require_min("J2-validated", 3 * n)
